@@ -90,6 +90,7 @@ import JdProofs.CliRoundTripModesPatch
 import JdProofs.CliRoundTripModes
 import JdProps.C14V1
 import JdProps.C14MergeSet
+import JdProps.C05V1
 
 set_option autoImplicit false
 
